@@ -71,12 +71,15 @@ ClipC(c, lo, hi) == Canon(FromFn(c.nv, LAMBDA t, v :
                        IF (IF lo = None THEN TRUE ELSE t >= lo) /\ (IF hi = None THEN TRUE ELSE t <= hi) THEN Uncanon(c).m[t, v] ELSE NaN))
 IsSer(hp, id) == hp[id].kind = "ser"
 SerF(hp, id) == IF hp[id].kind = "ser" THEN hp[id].f ELSE "-"
-\* names on which a databox-level overlay/underlay acts: series present in both boxes with the same frequency
+\* names on which a databox-level overlay/underlay acts: series present in both boxes, both with observations (an empty series has no
+\* frequency, the databox skips it) and of the same frequency
 LayNames(hp, bh, bg) == {n \in DOMAIN bh \cap DOMAIN bg :
                            IF IsSer(hp, bh[n]) /\ IsSer(hp, bg[n])
-                           THEN hp[bh[n]].f = hp[bg[n]].f /\ hp[bh[n]].c.start # None
-                                /\ Compatible(Uncanon(hp[bh[n]].c), Uncanon(hp[bg[n]].c))
+                           THEN hp[bh[n]].f = hp[bg[n]].f /\ hp[bh[n]].c.start # None /\ hp[bg[n]].c.start # None
                            ELSE FALSE}
+\* ... all of which must have compatible numbers of variants (otherwise the operation is rejected as a whole)
+LayCompatible(hp, bh, bg) == \A n \in LayNames(hp, bh, bg) :
+                                LET a == hp[bh[n]].c.nv  b == hp[bg[n]].c.nv IN IF a = b THEN TRUE ELSE IF a = 1 THEN TRUE ELSE b = 1
 
 \* ---- actions ------------------------------------------------------------------------------------------
 Keep(h, sel) == /\ box' = [box EXCEPT ![h] = Restrict(box[h], SelSet(h, sel))]
@@ -93,6 +96,7 @@ CopyLike(h, k, sel, pfx, deep) ==
     /\ k # h
     /\ LET q == SelSeq(h, sel) IN
        /\ \A i, j \in 1..Len(q) : i # j => q[i] # q[j]
+       /\ \A i, j \in 1..Len(q) : pfx \o q[i] = q[j] => pfx = ""       \* a target that is also a selected source is a rename collision: not specified
        /\ IF deep
           THEN /\ heap' = Alloc(heap, [i \in 1..Len(q) |-> heap[box[h][q[i]]]])
                /\ box' = [box EXCEPT ![k] = [n \in {pfx \o q[i] : i \in 1..Len(q)} |->
@@ -114,7 +118,7 @@ Merge(h, g, k) ==
 LayOp(h, g, which) ==
     /\ h # g
     /\ LET ns == LayNames(heap, box[h], box[g]) ids == {box[h][n] : n \in ns} IN
-       /\ ns # {}
+       /\ ns # {} /\ LayCompatible(heap, box[h], box[g])
        /\ \A n \in ns : box[h][n] # box[g][n]          \* an object overlaid on itself is not specified
        /\ \A n \in ns : ~heap[IF which = "overlay" THEN box[g][n] ELSE box[h][n]].lz      \* the series on top has its trimmed span
        /\ \A n1, n2 \in ns : n1 # n2 => box[h][n1] # box[h][n2]
@@ -137,15 +141,18 @@ DbClip(h, f, lo, hi) ==
 \* beneath every common series of h
 Prepend(h, g, f, endp) ==
     /\ h # g
-    /\ LET ns == LayNames(heap, box[h], box[g]) ids == {box[h][n] : n \in ns} IN
+    /\ LET gc(n) == IF heap[box[g][n]].f = f THEN ClipC(heap[box[g][n]].c, None, endp) ELSE heap[box[g][n]].c   \* the clipped copy of g
+           \* the underlay skips what is empty after clipping
+           \* (contents are canonical: the first stored row holds an observation, so the clipped copy is empty iff it starts after endp)
+           ns == {n \in LayNames(heap, box[h], box[g]) : IF heap[box[g][n]].f = f THEN heap[box[g][n]].c.start <= endp ELSE TRUE}
+           ids == {box[h][n] : n \in ns} IN
        /\ \E n \in ns : SerF(heap, box[h][n]) = f
+       /\ LayCompatible(heap, box[h], box[g])
        /\ \A n1, n2 \in ns : n1 # n2 => box[h][n1] # box[h][n2]
        /\ \A n \in ns : ~heap[box[h][n]].lz
        /\ heap' = [id \in 1..Len(heap) |->
                      IF id \in ids
-                     THEN LET n == CHOOSE x \in ns : box[h][x] = id IN
-                          [heap[id] EXCEPT !.c = OverlayC(heap[id].c, IF heap[id].f = f THEN ClipC(heap[box[g][n]].c, None, endp)
-                                                                          ELSE heap[box[g][n]].c)]
+                     THEN LET n == CHOOSE x \in ns : box[h][x] = id IN [heap[id] EXCEPT !.c = OverlayC(heap[id].c, gc(n))]
                      ELSE heap[id]]
        /\ last' = [op |-> <<"prepend", f, endp>>, h |-> h, g |-> g, k |-> h, ids |-> ids]
     /\ box' = box
